@@ -77,6 +77,21 @@ class C18(props.BaseProp):
                     c["readd"] = [nds_[(5 * i + k) % len(nds_)] for k in range(1 + i % 2)]
                     c["nomodel"] = True
             cases.append(c)
+            if i % 450 == 100:
+                # hub-dominated graphs of 250-400 nodes at the loosest tolerance (oracle only): the stopping test
+                # n * tol is then met in the VERY FIRST pass, where the previous iterate is still the un-normalised
+                # start vector - what is returned must be the normalised new iterate all the same
+                r2 = gv.SplitMix(seed * 7919 + 1800 + i)
+                nh = 250 + r2.below(151)
+                dirh = r2.below(2)
+                names = r2.shuffle(list(range(nh)))
+                hub = names[0]
+                wts = lambda: (1 + r2.below(3))  # noqa: E731
+                eh = [(x, hub, wts()) for x in names[1:]] if dirh else [(hub, x, wts()) for x in names[1:]]
+                if dirh:
+                    eh.append((hub, names[1], wts()))
+                cases.append({"id": "eh%d" % i, "spec": (dirh, 0, 1, 2, 0, 1), "nodes": names, "edges": eh,
+                              "weighted": r2.below(2) == 1, "max_iter": r2.pick([100, None]), "tolexp": 2, "nomodel": True})
         return cases
 
     def to_harness(self, c):
@@ -218,7 +233,7 @@ class C18(props.BaseProp):
 
     def stats_key(self, c, o):
         n = len(cg.effective(c)[1])
-        return ["dir%d_multi%d" % (c["spec"][0], c["spec"][1]), "n_%d" % n, "weighted%d" % c["weighted"],
+        return ["dir%d_multi%d" % (c["spec"][0], c["spec"][1]), "n_%s" % (n if n < 100 else "250-400"), "weighted%d" % c["weighted"],
                 "max_iter_%s" % c["max_iter"], "tol_1e-%s" % c["tolexp"],
                 "outcome_%s" % "_".join(str(ob[1][0][0]) for ob in o if ob[0] == 1)]
 
